@@ -25,7 +25,7 @@ RULE = (
     "case kinds: int = random multiset of forest keys with buckets (2-16 keys, <= 8 labels) in which "
     "the root is productive, inserted in a random order, real extractor run on it; table = integer "
     "universe as strategies searched under RuleDBForest, extraction + rule recomputation; words = "
-    "real word search under RuleDBForest(reverse on/off). Every extraction is judged: subset, "
+    "real word search under RuleDBForest(reverse on/off), followed by expand_verified on the result (fresh forest databases seeded with the rules of the specification, judged by the same monitors). Every extraction is judged: subset, "
     "productive, one key per class, closed, single-removal minimal, reverse keys only when needed. "
     "non-trivial = an extraction of >= 3 keys out of > needed inserted keys; distinct = case fingerprints"
 )
